@@ -34,7 +34,7 @@ class Comment(TypedExpression):
             raise ValueError("Missing comment")
         text = node.text.decode()
         if text.startswith("/*"):
-            doc = text.startswith("/**")
+            doc = text.startswith("/**") and len(text) > len("/**/")
             opener_len = 3 if doc else 2
             inner = text[opener_len:]
             if inner.endswith("*/"):
